@@ -1,8 +1,8 @@
 CONSTANTS
   InitPrios <- P12
-  SetPrios = {1, 2, 3}
-  Alphabet <- AlphaPert
-  K = 2
+  SetPrios = {1, 2}
+  Alphabet <- AlphaPertNoTick
+  K = 1
   CapBase = 0
 INIT Init
 NEXT Next
